@@ -31,7 +31,7 @@
 EXTENDS Integers, Sequences, FiniteSets
 
 \* first page starting at or after byte offset o (0 = none)
-PageAt(PG, o) == LET c == { i \in 1..Len(PG) : PG[i].off >= o } IN IF c = {} THEN 0 ELSE CHOOSE i \in c : \A j \in c : PG[i].off <= PG[j].off
+PageAt(PG, o) == LET k == Cardinality({ i \in 1..Len(PG) : PG[i].off < o }) IN IF k = Len(PG) THEN 0 ELSE k + 1      \* pages are in file order
 DataEnd(PG) == IF PG = <<>> THEN 0 ELSE PG[Len(PG)].off + PG[Len(PG)].len
 CeilDiv(a, b) == (a + b - 1) \div b
 \* how far the sync buffer reaches once everything up to o has been consumed: data arrives in units of `read` counted from the last seek
